@@ -11,6 +11,7 @@ from vlib import Broken, read_ndjson, write_ndjson, require_coverage
 INVARIANTS = ("Confluent DryRunNoChange NoCollateralDelete DeleteComplete ContentIdentical RepeatIsNoOp FilterExact "
               "CleanEnd ChannelsBounded IndexPairing NoDataUnderN RequestsFollowRule")
 PROPERTIES = "RefinesRecvSide CommitOnlyVerified Termination"
+SECOND = 5_000_000      # id offset of the transcript of a repeated run
 ACTIONS = ["SndHandshake", "SndList", "SndLoop", "MainHandshake", "MainList", "MainDelete", "MainJoin", "MainEnd",
            "GenEntry", "GenSums", "GenMarkers", "RcvRead", "RcvToks", "RcvCommit"]
 
@@ -63,9 +64,17 @@ def rows_of(obs):
         fw = o.get("fullwire")
         if not fw:
             continue
+        judge = [j for j in o["judge"] if j not in ("peers", "repeat")]
         rows.append({"id": o["id"], "dir": fw["dir"], "mode": fw.get("mode", "cmd"), "events": fw["events"], "parse_err": fw.get("err", ""),
                      "src": slim_nodes(o["src"]), "dst": slim_nodes(o["dst"]), "final": slim_nodes(o["final"]), "extra": o["extra"],
-                     "result": o["result"], "opts": o["opts"], "rules": o["rules"], "judge": [j for j in o["judge"] if j not in ("peers", "repeat")]})
+                     "result": o["result"], "opts": o["opts"], "rules": o["rules"], "judge": judge})
+        fw2 = o.get("fullwire2")
+        if fw2 and o.get("result2") == "ok":
+            # the immediately repeated run: the same specification, started from the destination the first run left
+            # (so its requests are exactly what the update rule says about THAT tree - none with -t)
+            rows.append({"id": SECOND + o["id"], "dir": fw2["dir"], "mode": fw2.get("mode", "cmd"), "events": fw2["events"], "parse_err": fw2.get("err", ""),
+                         "src": slim_nodes(o["src"]), "dst": slim_nodes(o["final"]), "final": slim_nodes(o["final2"]), "extra": o["extra"],
+                         "result": "ok", "opts": o["opts"], "rules": o["rules"], "judge": judge})
     return rows
 
 
